@@ -95,12 +95,21 @@ func witness(c *rig.Ctx, ops [][]byte) {
 					}
 					t.hits = t.hits[:0]
 					var divHits []int
+					// in every other run a key event arrives between two of the instruction's cycles
+					keyAt := -1
+					if rep%2 == 1 && pred.Cycles > 1 {
+						keyAt = 1 + r.Intn(pred.Cycles-1)
+						c.Count("witnessed_instructions_with_key_event", 1)
+					}
 					s.execute(regs, pred.Cycles, func(done int) {
 						if done > 0 && m.Timer.XCounter() == 0 {
 							divHits = append(divHits, done)
 						}
 						m.Timer.XSetCounter(0x1234)
 						t.cur = done
+						if done == keyAt {
+							m.CPU.OnInput()
+						}
 					})
 					nm := name(code)
 					c.Count("witnessed_instructions", 1)
@@ -275,6 +284,29 @@ func debugTwin(c *rig.Ctx) {
 			}
 			c.Count("debug_twin_cycles", 1)
 		}
+		c.DistinctOnly(p.Hash)
+	})
+}
+
+// programs: instruction sequences (not single instructions from a reset CPU) under the
+// lock-step monitor, whose reference knows every documented access: stacks placed where stores
+// do not stick (a pop right after a push must read memory, not remember the push), pointers in
+// OAM, key events at random cycles (a key event may not shift an access to another cycle).
+func programs(c *rig.Ctx) {
+	c.Require("program_instructions", "program_key_events")
+	c.Part("programs", c.N(200, 3000), func(i int64, r *rig.Rng) {
+		p := prog.Generate(r, prog.Options{OAMFocus: i%2 == 0, Hardware: i%3 == 0, MBCWrites: i%5 == 0, CartType: -1})
+		m := rig.MustNew(p.ROM, rig.Opts{})
+		f := lockstep.New(m)
+		f.Violate = func(prop, class, msg string) {
+			if prop == "C03" || prop == "C01" || prop == "C02" {
+				c.Violate("program-"+prop+"-"+class, msg, map[string]any{"program": p.Describe()})
+			}
+		}
+		_, keys := f.RunCyclesWithKeys(int(c.N(8000, 30000)), r, 40)
+		c.Count("program_key_events", int64(keys))
+		c.Count("program_instructions", f.Instrs)
+		c.Eval(f.Instrs)
 		c.DistinctOnly(p.Hash)
 	})
 }
